@@ -108,6 +108,12 @@ pub struct Cfg {
     /// Replays of known findings only: perform operations that the generators suppress (never generated).
     #[serde(default)]
     pub no_exclusions: bool,
+    /// value added to the server tick when the server starts (manual policy only): ticks around 2^31 and 2^32
+    #[serde(default)]
+    pub start_tick: u32,
+    /// allow `BigJump` steps (jumps of about 2^30 ticks with a full refresh of every live tick)
+    #[serde(default)]
+    pub big_jumps: bool,
 }
 
 impl Default for Cfg {
@@ -133,6 +139,8 @@ impl Default for Cfg {
             big: false,
             children_any_vis: false,
             no_exclusions: false,
+            start_tick: 0,
+            big_jumps: false,
         }
     }
 }
@@ -158,6 +166,11 @@ pub enum Step {
     EmitS { kind: SK, mode: u8, target: usize, refslot: usize },
     EmitC { client: usize, kind: CK, refslot: usize },
     ServerFrame { tick: bool },
+    /// a tick frame that advances the server tick by `by` (manual policy; gaps around the 64-tick window)
+    TickJump { by: u8 },
+    /// everybody in sync, advance the server tick by about 2^30, touch every replicated entity so that every live tick is
+    /// refreshed (ticks 2^31 or more apart are never compared), everybody in sync again
+    BigJump { fine: u8 },
     ClientFrame { client: usize },
     DeliverUpd { client: usize, n: usize },
     DeliverMut { client: usize, idx: u16 },
